@@ -10,6 +10,9 @@ inside its first sendto ('send') until the harness releases it - restart / shutd
 Tear-down is observed step by step: the close of the responder's socket and the return of every interface's
 shutdown() inside Server.restart() / Server.shutdown() are scheduling points at which a broadcast request is injected
 (the next generation is kept from starting until restart() has returned).
+The fake UDP socket follows the kernel: close() alone does not wake a thread blocked in recvfrom (the socket stays
+in the SO_REUSEPORT group until that thread returns), shutdown() wakes it (empty read) and raises ENOTCONN, sendto
+on a closed socket raises EBADF; besides the broadcast probe one unicast request is sent to every socket of the group.
 """
 import errno
 import os
